@@ -200,14 +200,15 @@ def _execute(spec, ses):
     counters["transcripts"] += 1
     counters["names"] += sum(len(v.get("names", [])) for v in T1.values())
     # (a) second build while the first is alive
+    LOCAL = ("logical", "physical", "fused")  # in-process repeats: three stages are enough, cross-process runs keep all six
     pool2 = W.build(recipe, use_knobs=True)
-    T2 = pristine.transcript(pool2[t])
-    df = pristine.diff_transcripts(T1, T2)
+    T2 = pristine.transcript(pool2[t], stages=LOCAL)
+    df = pristine.diff_transcripts({k: T1[k] for k in LOCAL}, T2)
     if df:
         return _done(_v("name_nondeterminism", "same_process:" + df[0], "second build in the same process: %s %s" % df), ses, counters, spec)
     # (f) another construction order
     pool3 = W.build(recipe, use_knobs=True, order="reverse")
-    df = pristine.diff_transcripts(T1, pristine.transcript(pool3[t]))
+    df = pristine.diff_transcripts({k: T1[k] for k in LOCAL}, pristine.transcript(pool3[t], stages=LOCAL))
     if df:
         return _done(_v("name_nondeterminism", "construction_order:" + df[0], "built in another order: %s %s" % df), ses, counters, spec)
     # (b) drop everything, collect, rebuild
@@ -216,7 +217,7 @@ def _execute(spec, ses):
     del pool1
     gc.collect()
     pool1 = W.build(recipe, use_knobs=True)
-    df = pristine.diff_transcripts(T1, pristine.transcript(pool1[t]))
+    df = pristine.diff_transcripts({k: T1[k] for k in LOCAL}, pristine.transcript(pool1[t], stages=LOCAL))
     counters["transcripts"] += 3
     if df:
         return _done(_v("name_nondeterminism", "after_gc:" + df[0], "rebuilt after drop + GC: %s %s" % df), ses, counters, spec)
